@@ -493,6 +493,22 @@ def gen_exec(rng, tier):
                 o.append("pat_exec %s Back(%d),Ptr,Save(0),Skip(12),ReadU32(1) 0x%x 2" % (k, bits // 8, c))
                 o.append("pat_exec %s Back(%d),Ptr,Save(0),Skip(12),Ptr,Save(1) 0x%x 2" % (k, bits // 8, c))
             cases.append([img_line(rng, im)] + o)
+        # the same chain through a view constructed with ANOTHER base address (`set_base_address`): a pointer
+        # operand is translated against the base of the view, not against the ImageBase field of the header
+        # (round-5 change C11-r5-3 took the base from the optional header in `va_to_rva`).  The stored pointers
+        # are relative to the header's base, so under base + d they land d bytes earlier or are rejected.
+        base = pe.image_base
+        mask = (1 << bits) - 1
+        o = []
+        for nb in (base + 8, base + 0x10, base - 8, base + 0x1000, base - 0x1000, 0, (base + (1 << (bits - 1))) & mask, base):
+            if nb < 0:
+                continue
+            k = "v%d@0x%x" % (bits, nb & mask)
+            for c in (vt, vt + 8):
+                o.append("pat_exec %s Back(%d),Ptr,Save(0),Skip(12),ReadU32(1) 0x%x 2" % (k, bits // 8, c))
+                o.append("pat_exec %s Back(%d),Ptr,Save(0) 0x%x 1" % (k, bits // 8, c))
+            o.append("scan %s Ptr,Save(1) 0x%x 0x%x 2" % (k, pe.sections[0].va, pe.sections[0].va + 0x40))
+        cases.append([img_line(rng, view)] + o)
     return cases
 
 
